@@ -7,6 +7,7 @@ import array
 import collections
 import functools
 import hashlib
+import io
 import os
 import pickle
 import sys
@@ -537,7 +538,17 @@ class DiskCache(_CacheBase):
 def _pickle_key(obj: Any) -> str:
     # Based on the implementation of `diskcache` although that also
     # does pickle_tools.optimize which we don't need here
-    data = pickle.dumps(obj, protocol=pickle.HIGHEST_PROTOCOL)
+    # Pickle without the memo: with it, the bytes depend on which equal sub-objects
+    # happen to be the *same* object (back-references), so equal keys could get
+    # different file names and a resident entry would be missed.
+    try:
+        buf = io.BytesIO()
+        pickler = pickle.Pickler(buf, protocol=pickle.HIGHEST_PROTOCOL)
+        pickler.fast = True
+        pickler.dump(obj)
+        data = buf.getvalue()
+    except Exception:  # noqa: BLE001  (a self-referential object needs the memo)
+        data = pickle.dumps(obj, protocol=pickle.HIGHEST_PROTOCOL)
     return hashlib.md5(data).hexdigest()  # noqa: S324
 
 
